@@ -25,8 +25,13 @@ Theorem C14_oracle : forall c : case, known c = 0 -> oracle c (run c) = true.
 Proof. exact oracle_holds. Qed.
 Print Assumptions C14_oracle.
 
-(* facts about the current source the model rests on (regenerated on every run) *)
+(* facts about the current source the model rests on (regenerated on every run).  The last one
+   scopes known class 1: a request that finds the token due waits for the renewal (it performs it
+   or awaits the renewal lock, which is held until the response has been applied), so the schedule
+   [CRenew; CSend; ..] is open only to a request that passed the due-check before the renewal
+   began -- not to every request entering send() while a renewal is in flight. *)
 Theorem C14_source_facts : single_key_slot = true /\ server_switches_on_request = true /\
-  client_switches_on_response = true /\ no_token_id_check_on_receive = true.
+  client_switches_on_response = true /\ no_token_id_check_on_receive = true /\
+  due_request_waits_for_renewal = true.
 Proof. repeat split; reflexivity. Qed.
 Print Assumptions C14_source_facts.
